@@ -357,6 +357,10 @@ class Core:
                 return z3.BoolVal(True)
             if k == "ostr":
                 return self.ostr_nonempty()(v.t)
+            if k == "dict":
+                # a dict is a total map key -> Optional[value]: non-empty iff some key is present
+                kv = z3.FreshConst(self.U.z3sort(v.sort.args[0]), "dk")
+                return z3.Exists([kv], self.U.z3sort(OPT(v.sort.args[1])).is_some(v.t[kv]))
         if isinstance(v, VSeq):
             return v.length() > 0
         if isinstance(v, VTuple):
